@@ -1,5 +1,8 @@
 use std::fmt;
+#[cfg(not(nexosim_verif))]
 use std::sync::{Arc, Mutex};
+#[cfg(nexosim_verif)]
+use crate::verif::sync::{Arc, Mutex};
 use std::time::Duration;
 
 use crate::channel::ChannelObserver;
